@@ -12,7 +12,10 @@ Sorted(S) == SetToSortSeq(S, LAMBDA a, b : a < b)
 MaxLen(g) == LET L == {Len(g.tr[s]) : s \in States(g)} IN CHOOSE m \in L : \A x \in L : x <= m
 
 \* all pure memoryless choices for the states in S (each must have >= 1 transition)
-ChoiceSets(g, S) == {c \in [S -> 1..MaxLen(g)] : \A s \in S : c[s] <= Len(g.tr[s])}
+\* (transitions of one state with the same target are the same choice: only the
+\* first of each target is enumerated)
+Reps(g, s) == {j \in DOMAIN g.tr[s] : \A i \in 1..(j - 1) : g.tr[s][i].t # g.tr[s][j].t}
+ChoiceSets(g, S) == {c \in [S -> 1..MaxLen(g)] : \A s \in S : c[s] \in Reps(g, s)}
 Movers(g, o, Dom) == {s \in Dom : g.owner[s] = o /\ Len(g.tr[s]) > 0}
 
 \* the row of the Markov chain induced by choice c
@@ -30,18 +33,53 @@ ChainBack(g, c, Dom, X) ==
     LET Y == X \cup {s \in Dom \ X : CSucc(g, c, s) \cap X # {}}
     IN  IF Y = X THEN X ELSE ChainBack(g, c, Dom, Y)
 
-\* Solve  D_s x_s - sum_{t in T} w(s,t) x_t = rhs[s]  for the states of T
-\* (T a set); result: function T -> rational
-LinSolve(g, c, T, rhs) ==
-    LET Ts == Sorted(T)
-        k  == Len(Ts)
-        M  == TLCEval([i \in 1..k |-> [j \in 1..k |->
-                 LET row == Row(g, c, Ts[i])
+\* Under a fixed choice c the player states are deterministic, so only the
+\* probabilistic states of the transient set T are unknowns of the linear
+\* system; a player state is followed along c to the first probabilistic or
+\* non-transient state, accumulating cost on the way.  cyc: the walk never
+\* leaves the player states (it then contributes nothing).
+RECURSIVE Follow(_, _, _, _, _, _)
+Follow(g, c, T, costOf, t, seen) ==
+    IF t \notin T \/ g.owner[t] = PR THEN [end |-> t, cost |-> 0, cyc |-> FALSE]
+    ELSE IF t \in seen THEN [end |-> t, cost |-> 0, cyc |-> TRUE]
+    ELSE LET r == Follow(g, c, T, costOf, g.tr[t][c[t]].t, seen \cup {t})
+         IN  [r EXCEPT !.cost = @ + costOf[t]]
+
+RAddInt(x, k) == Rat(x[1] + k * x[2], x[2])
+
+\* Values of the states of T in the chain of c, where
+\*   own[s]    : what a probabilistic state of T earns per visit
+\*   costOf[s] : what a player state of T earns per visit
+\*   bnd[t]    : value of a state outside T
+\* result: function T -> rational
+LinSolve(g, c, T, own, costOf, bnd) ==
+    LET Ps  == Sorted({s \in T : g.owner[s] = PR})
+        k   == Len(Ps)
+        fol == TLCEval([t \in States(g) |-> Follow(g, c, T, costOf, t, {})])
+        M   == TLCEval([i \in 1..k |-> [j \in 1..k |->
+                 LET row == g.tr[Ps[i]]
                  IN  (IF i = j THEN SumW(row, Len(row)) ELSE 0)
-                       - SumWTo(row, Len(row), {Ts[j]})]])
-        b  == TLCEval([i \in 1..k |-> rhs[Ts[i]]])
-        x  == TLCEval(Cramer(M, b, k))
-    IN  TLCEval([s \in T |-> x[CHOOSE i \in 1..k : Ts[i] = s]])
+                       - SumTo([e \in DOMAIN row |->
+                                  IF ~fol[row[e].t].cyc /\ fol[row[e].t].end = Ps[j]
+                                  THEN row[e].w ELSE 0], Len(row))]])
+        b   == TLCEval([i \in 1..k |->
+                 LET row == g.tr[Ps[i]]
+                 IN  SumW(row, Len(row)) * own[Ps[i]]
+                     + SumTo([e \in DOMAIN row |->
+                                LET f == fol[row[e].t]
+                                IN  IF f.cyc THEN 0
+                                    ELSE row[e].w * (f.cost + (IF f.end \in T THEN 0 ELSE bnd[f.end]))],
+                             Len(row))])
+        x   == TLCEval(Cramer(M, b, k))
+        xv(u) == x[CHOOSE i \in 1..k : Ps[i] = u]
+    IN  TLCEval([s \in T |->
+            IF g.owner[s] = PR THEN xv(s)
+            ELSE LET f == fol[s]
+                 IN  IF f.cyc THEN RZero
+                     ELSE IF f.end \in T THEN RAddInt(xv(f.end), f.cost)
+                     ELSE Rat(f.cost + bnd[f.end], 1)])
+
+Zeros(g) == [s \in States(g) |-> 0]
 
 \* probability of ever visiting a final state in the chain of c, for the states
 \* of a closed sub-arena Dom
@@ -49,8 +87,7 @@ MCReachOn(g, c, Dom) ==
     LET F   == FinalSet(g) \cap Dom
         Can == ChainBack(g, c, Dom, F)
         T   == Can \ F
-        x   == LinSolve(g, c, T, [s \in T |-> LET row == Row(g, c, s)
-                                               IN SumWTo(row, Len(row), F)])
+        x   == LinSolve(g, c, T, Zeros(g), Zeros(g), [s \in States(g) |-> IF s \in F THEN 1 ELSE 0])
     IN  TLCEval([s \in Dom |-> IF s \in F THEN ROne
                                 ELSE IF s \in T THEN x[s] ELSE RZero])
 MCReach(g, c) == MCReachOn(g, c, States(g))
@@ -61,14 +98,14 @@ ProperFor(g, c, Dom, Term) == ChainBack(g, c, Dom, Term \cap Dom) = Dom
 \* expected number of steps until Term (only for proper c); function Dom -> rational
 MCSteps(g, c, Dom, Term) ==
     LET T == Dom \ Term
-        x == LinSolve(g, c, T, [s \in T |-> LET row == Row(g, c, s) IN SumW(row, Len(row))])
+        x == LinSolve(g, c, T, [s \in States(g) |-> 1], [s \in States(g) |-> 1], Zeros(g))
     IN  TLCEval([s \in Dom |-> IF s \in T THEN x[s] ELSE RZero])
 
 \* expected total reward until absorption in a sink (Dom closed, stopping on Dom)
 MCReward(g, c, Dom) ==
     LET T == Dom \ Sinks(g)
-        x == LinSolve(g, c, T, [s \in T |-> LET row == Row(g, c, s)
-                                            IN SumW(row, Len(row)) * g.reward[s]])
+        r == [s \in States(g) |-> g.reward[s]]
+        x == LinSolve(g, c, T, r, r, Zeros(g))
     IN  TLCEval([s \in Dom |-> IF s \in T THEN x[s] ELSE RZero])
 
 -----------------------------------------------------------------------------
@@ -76,11 +113,19 @@ MCReward(g, c, Dom) ==
 
 MaxMin(tab, Sg, Tg, s) == RMaxOf({RMinOf({tab[sg][tg][s] : tg \in Tg}) : sg \in Sg})
 
-\* max-min probability of reaching a final state; function States -> rational
+\* g with the states of A made absorbing (their choices no longer matter)
+MakeAbsorbing(g, A) ==
+    [g EXCEPT !.tr = [s \in 1..g.n |-> IF s \in A THEN <<Tr("", 1, s)>> ELSE g.tr[s]],
+              !.owner = [s \in 1..g.n |-> IF s \in A THEN PR ELSE g.owner[s]]]
+
+\* max-min probability of reaching a final state; function States -> rational.
+\* Final states are worth 1 and the states of the zero set 0 whatever happens
+\* behind them, so both are made absorbing before strategies are enumerated.
 ReachValue(g) ==
-    LET Sg  == ChoiceSets(g, Movers(g, P1, States(g)))
-        Tg  == ChoiceSets(g, Movers(g, P2, States(g)))
-        tab == TLCEval([sg \in Sg |-> [tg \in Tg |-> MCReach(g, sg @@ tg)]])
+    LET g0  == MakeAbsorbing(g, FinalSet(g) \cup ZeroSet(g))
+        Sg  == ChoiceSets(g0, Movers(g0, P1, States(g)))
+        Tg  == ChoiceSets(g0, Movers(g0, P2, States(g)))
+        tab == TLCEval([sg \in Sg |-> [tg \in Tg |-> MCReach(g0, sg @@ tg)]])
     IN  TLCEval([s \in States(g) |-> MaxMin(tab, Sg, Tg, s)])
 
 \* amplification factor of the stopping rule (DESIGN section 5): per state the
@@ -92,7 +137,8 @@ StepBound(g, Dom, Term) ==
         tab == TLCEval([c \in PP |-> MCSteps(g, c, Dom, Term)])
     IN  TLCEval([s \in Dom |-> IF PP = {} THEN RZero ELSE RMaxOf({tab[c][s] : c \in PP})])
 
-ReachStepBound(g) == StepBound(g, States(g), FinalSet(g) \cup ZeroSet(g))
+ReachStepBound(g) ==
+    LET A == FinalSet(g) \cup ZeroSet(g) IN StepBound(MakeAbsorbing(g, A), States(g), A)
 
 \* max-min expected total reward on a closed sub-arena Dom on which the game
 \* is stopping; function Dom -> rational
